@@ -101,17 +101,21 @@ def _build(cfg):
         axes.append(dict(name="omega", cap=cfg["cap_x"], nstart=cfg["nstart_x"], sel=cfg["sel_x"], sample=cfg["sample_x"], b=cfg["b_x"]))
     key = jax.random.PRNGKey(cfg["seed"])
     lo, hi = cfg.get("box", [0.0, 1.0])
+    lo2, hi2 = cfg.get("boxy", [lo, hi])          # bounds of the second space coordinate
+    tlo, thi = cfg.get("tbox", [lo, hi])          # time interval
+    xlo, xhi = (lo, lo2)[:dim] if dim <= 2 else (lo,) * dim, (hi, hi2)[:dim] if dim <= 2 else (hi,) * dim
+    bnds = dict(times=(np.array([tlo]), np.array([thi])), omega=(np.array(xlo), np.array(xhi)))
     if kind == "ode":
-        g = jinns.data.DataGeneratorODE(key, cfg["cap_t"], lo, hi, cfg["b_t"], "uniform", rar, cfg["nstart_t"])
+        g = jinns.data.DataGeneratorODE(key, cfg["cap_t"], tlo, thi, cfg["b_t"], "uniform", rar, cfg["nstart_t"])
         eqt = "ODE"
     elif kind == "statio":
         g = jinns.data.CubicMeshPDEStatio(key=key, n=cfg["cap_x"], nb=None, omega_batch_size=cfg["b_x"], omega_border_batch_size=None,
-                                          dim=dim, min_pts=(lo,) * dim, max_pts=(hi,) * dim, rar_parameters=rar, n_start=cfg["nstart_x"])
+                                          dim=dim, min_pts=tuple(xlo), max_pts=tuple(xhi), rar_parameters=rar, n_start=cfg["nstart_x"])
         eqt = "statio_PDE"
     else:
         g = jinns.data.CubicMeshPDENonStatio(key=key, n=cfg["cap_x"], nb=None, nt=cfg["cap_t"], omega_batch_size=cfg["b_x"],
-                                             omega_border_batch_size=None, temporal_batch_size=cfg["b_t"], dim=dim, min_pts=(lo,) * dim,
-                                             max_pts=(hi,) * dim, tmin=lo, tmax=hi, rar_parameters=rar, n_start=cfg["nstart_x"],
+                                             omega_border_batch_size=None, temporal_batch_size=cfg["b_t"], dim=dim, min_pts=tuple(xlo),
+                                             max_pts=tuple(xhi), tmin=tlo, tmax=thi, rar_parameters=rar, n_start=cfg["nstart_x"],
                                              nt_start=cfg["nstart_t"], cartesian_product=True)
         eqt = "nonstatio_PDE"
 
@@ -188,7 +192,7 @@ def _build(cfg):
                 loss = jinns.loss.SystemLossPDE(u_dict={"a": u}, dynamic_loss_dict={"e1": mk(0), "e2": mk(1)},
                                                 loss_weights=jinns.loss.LossWeightsPDEDict(), params_dict=pdict)
         rex = lambda *a: rexact0(*a) ** 2 + (0.1 - 1.1 * rexact0(*a)) ** 2
-        return g, loss, pdict, axes, rex, (lo, hi)
+        return g, loss, pdict, axes, rex, bnds
     with warnings.catch_warnings():
         warnings.simplefilter("ignore")
         if kind == "ode":
@@ -197,7 +201,7 @@ def _build(cfg):
             loss = jinns.loss.LossPDEStatio(u=u, dynamic_loss=Eq(Tmax=1), params=params)
         else:
             loss = jinns.loss.LossPDENonStatio(u=u, dynamic_loss=Eq(Tmax=1), params=params)
-    return g, loss, params, axes, rexact, (lo, hi)
+    return g, loss, params, axes, rexact, bnds
 
 
 def _axis_arrays(g, name):
@@ -214,9 +218,9 @@ def run_case(cfg):
     if not _verif.ENABLED:
         raise RuntimeError("JINNS_VERIF hooks are not enabled in the driver process")
     kind = cfg["kind"]
-    g, loss, params, axes, rexact, (lo, hi) = _build(cfg)
+    g, loss, params, axes, rexact, bnds = _build(cfg)
     if cfg.get("mode") == "solve":
-        return _run_solve(cfg, g, loss, params, axes, rexact, lo, hi)
+        return _run_solve(cfg, g, loss, params, axes, rexact, bnds)
     tr = dict(cfg=cfg, kind=kind, start=cfg["start"], every=cfg["every"], hasDraw=True, fresh=True, retOK=True, skipped="", exc="", steps0=0,
               axes=[], ev=[])
     g, rt, rf = init_rar(g)
@@ -269,7 +273,8 @@ def run_case(cfg):
                 c = cands[ax["name"]]
                 cand_ids = [regs[a].add(r) for r in c]
                 dt = c.dtype.type
-                cand_in = [bool(np.all((dt(lo) <= r) & (r <= dt(hi)))) for r in c]
+                blo, bhi = (v.astype(c.dtype) for v in bnds[ax["name"]])
+                cand_in = [bool(np.all((blo <= r) & (r <= bhi))) for r in c]
                 if len(axes) == 1:
                     rank, _ = _ranks([rexact(r) for r in c])
             arr, p, cur = _axis_arrays(g, ax["name"])
@@ -295,7 +300,7 @@ def _ev_axis(e, name):
     return _np(e["omega"]), _np(e["p_omega"]), int(e["curr_omega_idx"])
 
 
-def _run_solve(cfg, g, loss, params, axes, rexact, lo, hi):
+def _run_solve(cfg, g, loss, params, axes, rexact, bnds):
     """End-to-end: the same trace, recorded by hooks H1/H2 while jinns.solve runs."""
     import jax
     import optax
@@ -368,7 +373,8 @@ def _run_solve(cfg, g, loss, params, axes, rexact, lo, hi):
                 c = cands[ax["name"]]
                 cand_ids = [regs[a].add(r) for r in c]
                 dt = c.dtype.type
-                cand_in = [bool(np.all((dt(lo) <= r) & (r <= dt(hi)))) for r in c]
+                blo, bhi = (v.astype(c.dtype) for v in bnds[ax["name"]])
+                cand_in = [bool(np.all((blo <= r) & (r <= bhi))) for r in c]
                 if len(axes) == 1:
                     rank, _ = _ranks([rexact(r) for r in c])
             arr, p, cur = _ev_axis(it, ax["name"])
